@@ -39,7 +39,7 @@ def _big_ids(rng, pg):
         k = rng.randint(1, min(3, len(ids)))
         tgt = [w + rng.randrange(0, 1000) * 2 for w in rng.sample(wide, k)]
         chosen = rng.sample(ids, k)
-        if set(tgt) & set(ids):
+        if set(tgt) & set(ids) or len(set(tgt)) != k:  # (two wide bases plus offsets can coincide: not a relabelling)
             return pg
         return sem.pg_relabel(pg, dict(zip(chosen, tgt)))
     if kind == "huge":
